@@ -85,6 +85,10 @@ type Config struct {
 	RemoteList []tds.LoginConfigRemoteServer `json:"-"`
 	// QueueSize is Info.ChannelPackageQueueSize: 0 = 1000 (roomy), -1 = 0 (unbuffered), n = n
 	QueueSize int `json:"package_queue_size,omitempty"`
+	// TLS: the connection description says the transport is TLS (Info.TLSEnable, validation
+	// skipped; the scripted transport itself is what it is); DebugLog: Info.DebugLogPackages
+	TLS      bool `json:"tls_enable,omitempty"`
+	DebugLog bool `json:"debug_log_packages,omitempty"`
 }
 
 // Script is what the server answers.
@@ -162,6 +166,7 @@ func NewSession(cfg Config) *Session {
 	case cfg.QueueSize > 0:
 		s.info.ChannelPackageQueueSize = cfg.QueueSize
 	}
+	s.info.TLSEnable, s.info.TLSSkipValidation, s.info.DebugLogPackages = cfg.TLS, cfg.TLS, cfg.DebugLog
 	if s.info.Host == "" {
 		s.info.Host = "srv"
 	}
@@ -236,6 +241,7 @@ func (sess *Session) Login(cfg Config, s Script, ctxTimeout time.Duration) (res 
 	off0 := pipe.WrittenLen()
 	info := *sess.info
 	info.Info.Username, info.Info.Password = cfg.User, cfg.Password
+	info.TLSEnable, info.TLSSkipValidation = cfg.TLS, cfg.TLS
 	conf, err := tds.NewLoginConfig(&info)
 	if err != nil {
 		res.Err = err
